@@ -90,12 +90,19 @@ package storage
 //@   trusted
 //@   assigns nothing
 //@ -- Reset gives the bucket its new window
+//@ ghost c32NewStats *statisticsIndex
+//@ ghost c32StatsMade bool
 //@ func (*AggregationBucket).Reset
 //@   property C32
 //@   option safety off
-//@   option stable (*AggregationBucket).StartTime, (*AggregationBucket).EndTime
+//@   option stable (*AggregationBucket).StartTime, (*AggregationBucket).EndTime, (*AggregationBucket).stats
 //@   requires b != nil
+//@   ghost at call Lock: c32StatsMade = false
 //@   ensures b.StartTime == start && b.EndTime == end
+//@ -- the per-bucket statistics start from scratch with every new window (a recycled slot must not carry the
+//@ -- previous lap's counts)
+//@   ghost at call newStatisticsIndex: c32NewStats = res ; c32StatsMade = true
+//@   ensures c32StatsMade && b.stats == c32NewStats
 //@ ghost c32B *AggregationBucket
 //@ ghost c32S int64
 //@ ghost c32E int64
